@@ -201,8 +201,63 @@ def analyse(obj, accs):
     return out
 
 
+# ---- fixed extra placements: intermediates and the always forms -----------------------------------------------------
+XHDR = """from cohdl import std, Entity, Port, Bit, BitVector, Unsigned, Signal, Variable
+import cohdl
+class T(Entity):
+    clk = Port.input(Bit)
+    i = Port.input(BitVector[2])
+    xin = Port.input(BitVector[2])
+    o0 = Port.output(BitVector[2], default='00')
+    o1 = Port.output(BitVector[2], default='00')
+    def architecture(self):
+        @std.sequential(std.Clock(self.clk))
+        def sc():
+"""
+EXTRA = {
+    # name: (must_reject, body lines)
+    "always-block-intermediate-whole": (False, ["with cohdl.always:", "    t = self.i | self.xin", "    self.o0 <<= t"]),
+    "always-block-intermediate-sliced": (False, ["with cohdl.always:", "    t = self.i | self.xin", "    self.o0[0] <<= t[0]", "    self.o0[1] <<= t[1]"]),
+    "always-block-intermediate-slice": (False, ["with cohdl.always:", "    t = self.i | self.xin", "    self.o0 <<= t[1:0]"]),
+    "always-expr-reads-process-intermediate": (True, ["t = self.i | self.xin", "self.o0 <<= cohdl.always(t | self.i)"]),
+    "always-expr-reads-bit-of-process-intermediate": (True, ["t = self.i | self.xin", "self.o0[0] <<= cohdl.always(t[0] | self.i[1])"]),
+    "always-expr-reads-slice-of-process-intermediate": (True, ["t = self.i | self.xin", "self.o0 <<= cohdl.always(t[1:0] | self.i)"]),
+    "always-block-reads-process-intermediate": (True, ["t = self.i | self.xin", "with cohdl.always:", "    self.o0 <<= t"]),
+    "always-block-reads-bit-of-process-intermediate": (True, ["t = self.i | self.xin", "with cohdl.always:", "    self.o0[0] <<= t[1]"]),
+    "process-reads-always-block-intermediate": (False, ["with cohdl.always:", "    t = self.i | self.xin", "self.o1 <<= t", "self.o0[0] <<= t[1]"]),
+}
+
+
+def analyse_extra(name):
+    must, body = EXTRA[name]
+    src = XHDR + "".join("            " + l + "\n" for l in body)
+    res, _ = compile_source(src)
+    if not res.ok:
+        return {"status": "rejected", "must": must, "error": res.error}
+    out = {"status": "accepted", "must": must, "reason": "an intermediate of the process body is used by an always form (a separate concurrent driver)",
+           "src": src, "problems": []}
+    try:
+        d = Design(res.vhdl)
+    except VhdlSyntaxError as e:
+        out["problems"].append(("syntax", str(e)))
+        return out
+    except Unsupported as e:
+        return {"status": "tool", "what": f"vfront unsupported: {e}", "src": src}
+    for m in d.multi_driven:
+        out["problems"].append(("multi-driver", f"signal {m[0]} is driven by {m[1]} and {m[2]}"))
+    for f in d.findings:
+        out["problems"].append((f.rule, f.msg))
+    return out
+
+
 def work(tasks):
-    return [(obj, accs, analyse(obj, accs)) for obj, accs in tasks]
+    out = []
+    for obj, accs in tasks:
+        if obj == "extra":
+            out.append((obj, accs, analyse_extra(accs)))
+        else:
+            out.append((obj, accs, analyse(obj, accs)))
+    return out
 
 
 def family(run):
@@ -221,13 +276,25 @@ def family(run):
 
 
 def main(run: Run):
-    tasks = list(family(run))
+    tasks = list(family(run)) + [("extra", name) for name in EXTRA]
     run.count("designs_generated", len(tasks))
     for kind, res in pmap(work, list(chunked(tasks, 40))):
         if kind != "ok":
             run.tool_error(f"worker: {res[-500:]}")
             continue
         for obj, accs, r in res:
+            if obj == "extra":
+                ident = f"extra/{accs}"
+                run.count("designs_" + r["status"])
+                if r["status"] == "tool":
+                    run.tool_error(f"{ident}: {r['what']}")
+                elif r["status"] == "accepted":
+                    if r["must"]:
+                        run.violation(f"{ident}/accepted", f"{ident}: accepted although {r['reason']}", {"extra": accs, "cohdl_source": r["src"]})
+                    for rule in sorted({p_[0] for p_ in r["problems"]}):
+                        msg = next(p_[1] for p_ in r["problems"] if p_[0] == rule)
+                        run.violation(f"{ident}/{rule}", f"{ident}: emitted architecture: [{rule}] {msg}", {"extra": accs, "cohdl_source": r["src"]})
+                continue
             ident = canon(obj, accs)
             st = r["status"]
             run.count("designs_" + st)
@@ -265,6 +332,10 @@ def main(run: Run):
 
 
 def replay(run: Run, data):
+    if "extra" in data:
+        r = analyse_extra(data["extra"])
+        print(r.get("status"), r.get("must"), r.get("problems"))
+        return not (r["status"] == "accepted" and (r["must"] or r["problems"]))
     accs = tuple(tuple(a) for a in data["accesses"])
     r = analyse(data["object"], accs)
     print(r.get("status"), r.get("must"), r.get("problems"))
